@@ -157,14 +157,17 @@ def real_headers(rng, names, edges, funcs_only):
         elif u in funcs_only:
             out += ["__published:", "int %s_only_function(int a);" % names[u]]
         else:
-            out += ["class %s_K0 {" % U, "__published:", "  %s_K0();" % U, "  int get_%s() const;" % names[u], "};"]
+            out += ["%s %s_K0 {" % (rng.choice(["class", "class", "struct"]), U), "__published:", "  %s_K0();" % U, "  int get_%s() const;" % names[u]]
+            if rng.chance(1, 2):
+                out += ["  int get_num_parts() const;", "  int get_part(int n) const;", "  __make_seq(get_parts, get_num_parts, get_part);"]
+            out.append("};")
             for v in deps:
                 out.append('#include "%s.h"' % names[v])
             for n, v in enumerate(deps):
                 h = how[(u, v)]
                 base = rng.choice(classes[v]) if acyclic else classes[v][0]
                 if h in ("derive", "both"):
-                    out += ["class %s_D%d : public %s {" % (U, n, base), "__published:", "  %s_D%d();" % (U, n), "  int d%d() const;" % n, "};"]
+                    out += ["%s %s_D%d : public %s {" % (rng.choice(["class", "struct", "struct"]), U, n, base), "__published:", "  %s_D%d();" % (U, n), "  int d%d() const;" % n, "};"]
                     classes[u].append("%s_D%d" % (U, n))
                 if h in ("typedef", "both"):
                     out.append("typedef %s %s_T%d;" % (rng.choice(classes[v]) if acyclic else classes[v][0], U, n))
@@ -209,13 +212,21 @@ def synth_dbs(rng, names, edges, funcs_only):
             idx += 1
             h = rng.choice(["derive", "typedef", "both"])
             if h in ("derive", "both"):
-                types[idx] = mk("%s_D%d" % (U, n), "%s_D%d" % (U, n), 0x1 | 0x800 | F.TF_FULLY_DEFINED, derivs=[local])
+                types[idx] = mk("%s_D%d" % (U, n), "%s_D%d" % (U, n), 0x1 | rng.choice([0x800, 0x400]) | F.TF_FULLY_DEFINED, derivs=[local])
                 idx += 1
             if h in ("typedef", "both"):
                 types[idx] = mk("%s_T%d" % (U, n), "%s_T%d" % (U, n), 0x1 | F.TF_TYPEDEF | F.TF_FULLY_DEFINED | 0x80, wrapped=local)
                 idx += 1
+        seqs = {}
+        if fn and types and rng.chance(1, 2):
+            # a make_seq record: the last section of the file, so that a tear near the end falls inside it
+            seqs[idx] = {"name": ("get_%s_parts" % U).encode(), "alt_names": [], "length_getter": 1, "element_getter": 1,
+                         "scoped_name": ("%s_K0::get_%s_parts" % (U, U)).encode(), "comment": b"a comment that is long enough to be torn in the middle"}
+            first_type = min(types)
+            types[first_type]["make_seqs"] = [idx]
+            idx += 1
         dbs.append({"file_identifier": 7, "major": 3, "minor": 3, "library_name": U.encode(), "library_hash_name": b"hhhh", "module_name": MODULE.encode(),
-                    "functions": fn, "wrappers": {}, "types": types, "manifests": {}, "elements": {}, "make_seqs": {}})
+                    "functions": fn, "wrappers": {}, "types": types, "manifests": {}, "elements": {}, "make_seqs": seqs})
     return dbs
 
 
@@ -240,7 +251,7 @@ def generate(ctx):
             perms = rng.sample(perms, 8)
         fault = None
         if rng.chance(1, 4):
-            fault = {"lib": rng.below(k), "kind": rng.choice(["missing", "torn", "torn", "version", "version", "isdir", "empty"]), "frac": rng.range(1, 99), "stale": rng.chance(1, 2),
+            fault = {"lib": rng.below(k), "kind": rng.choice(["missing", "torn", "torn", "torn-tail", "torn-tail", "version", "version", "isdir", "empty"]), "back": rng.range(2, 60), "frac": rng.range(1, 99), "stale": rng.chance(1, 2),
                      "text": rng.choice(["3 4", "4 0", "2 3", "1 0", "2 9", "3 99"])}
         elif rng.chance(1, 8):
             fault = {"lib": None, "kind": "none", "stale": True}
@@ -384,6 +395,13 @@ def execute(plan):
                 b, _, rest = rest.partition(b"\n")
                 with open(p, "wb") as f:
                     f.write(a + b"\n" + fault.get("text", "3 4").encode() + b"\n" + rest)
+            elif fault["kind"] == "torn-tail":
+                # a tear near the end of the file (inside the last records), never one that removes only trailing whitespace
+                cut = max(1, len(data) - fault.get("back", 10))
+                while cut > 1 and not data[cut:].strip():
+                    cut -= 1
+                with open(p, "wb") as f:
+                    f.write(data[:cut])
             elif fault["kind"] == "torn":
                 cut = max(1, len(data) * fault["frac"] // 100)
                 # a cut that removes only trailing whitespace is not a fault
